@@ -108,5 +108,19 @@ CLAIMED.update({
             "contracts over symbolic byte strings (pyvc + z3); finite status tables evaluated completely", "DESIGN.md 3 (C13), 9"),
 })
 
+CLAIMED.update({
+    "C14": ("proof", "CIPDriver.generic_message is proved, against an assumed transport returning a Message Router reply, to emit for all "
+            "class/instance/attribute values, all request data and connected / UCMM / Unconnected Send modes exactly: service, request path "
+            "(the callee request_path is replaced by its proved contract), data, and the requested route (True/False/str/list/bytes); the "
+            "Unconnected Send wrapper parses back (embedded size, pad byte, route) with the independent parser; reply data is returned "
+            "unchanged or decoded (UINT/DINT/STRING); a refused request gives a falsy Tag with text; set/get_plc_time, get_module_info, "
+            "get_plc_info, _list_identity are proved on top", "modular contracts + parse-back postconditions (pyvc + z3)", "DESIGN.md 3 (C14), 9"),
+    "C16": ("proof", "ModuleIdentityObject / ListIdentityObject decoding and the ListIdentity reply parsing are proved equal to the field layout of "
+            "CIP Vol 1 5-2 / Vol 2 2-4.2 (spec/identity.py) for all field values (ids 0..65535 through the vendor / product-type tables as "
+            "uninterpreted lookups with the 'UNKNOWN' default, serial as 8 hex digits, Latin-1 names of length 0..255, any IPv4, any state); "
+            "dict -> bytes -> dict identity for table names; get_module_info / get_plc_info / _list_identity proved end to end over an assumed transport",
+            "contracts against a reference layout (pyvc + z3)", "DESIGN.md 3 (C16), 9"),
+})
+
 if __name__ == "__main__":
     main()
